@@ -42,6 +42,10 @@ def expected_site(op):
         return ("scalarAssign", 1, 0)
     if w[0] == "adep":
         return ("stackAddDep", 0 if int(w[3]) == 0 else 1, 0)
+    if w[0] == "adepv":
+        # array form: n reserved, the non-zero multipliers pushed, then the statement
+        ms = [int(w[j + 1]) for j in range(5, len(w) - 1, 2)]
+        return ({"a": "activeAddDep", "r": "activeRefAddDep", "c": "activeConstRefAddDep"}[w[1]], len(ms), sum(1 for m in ms if m != 0))
     return None
 
 
